@@ -637,7 +637,7 @@ impl Gen {
             0 => Value::Int(Some(r.below(2000) as i32 - 1000)), 1 => Value::Int(None), 2 => Value::BigInt(Some(r.next() as i64)), 3 => Value::BigUnsigned(Some(r.next())),
             4 => Value::BigUnsigned(Some(u64::MAX - r.below(3))), 5 => Value::TinyInt(Some(r.next() as i8)), 6 => Value::SmallUnsigned(Some(r.next() as u16)),
             7 => Value::Bool(Some(r.chance(1, 2))), 8 => Value::Bool(None),
-            9 => Value::String(Some(Box::new(r.pick(&["", "abc", "it's", "a\\b", "q?m", "$1", "new\nline", "tab\t", "\"dq\"", "`bt`", "ünï", "a'b\\c?$2", "100%"]).to_string()))),
+            9 => Value::String(Some(Box::new(r.pick(&["", "abc", "it's", "a\\b", "q?m", "$1", "new\nline", "tab\t", "\"dq\"", "`bt`", "ünï", "a'b\\c?$2", "100%", "eof\u{1a}", "bs\u{8}", "cr\r", "esc\u{1b}"]).to_string()))),
             10 => Value::String(Some(Box::new(random_string(r, 6).replace('\0', "")))), /* NUL: not representable in Postgres / SQLite literals (C03) */ 11 => Value::String(None),
             12 => Value::Char(Some(*r.pick(&['x', '\'', '\\', '?', 'é', '\n']))),
             13 => Value::Bytes(Some(Box::new((0..r.below(5)).map(|_| r.next() as u8).collect()))),
